@@ -543,7 +543,8 @@ func (rn *runner) decompCase(g *gen, d *apd.Decimal) {
 func (rn *runner) floatCase(bits uint64) {
 	rn.rawCase("float", fmt.Sprint(bits), true, "float", func() string {
 		f := math.Float64frombits(bits)
-		var d apd.Decimal
+		// the destination holds something else before (sign, form, exponent of an earlier value)
+		d := *junk(rn.r)
 		if _, err := d.SetFloat64(f); err != nil {
 			return "seterr"
 		}
